@@ -334,4 +334,68 @@ theorem skips_lineComment (hK : K.WF) (body : List Char) (n : Char)
   simp only [scan, hw, Bool.false_eq_true, if_false, if_true]
   rw [lineCommentLen_body body n rest hb hn, lex_dropWhile_nl hK]
 
+
+/-! ## block comments -/
+
+theorem blockEnd_body : ∀ (body rest : List Char), '/' ∉ body →
+    blockEnd (body ++ '*' :: '/' :: rest) = some (body.length + 2) := by
+  intro body
+  induction body with
+  | nil => intro rest _; simp [blockEnd_cons_cons]
+  | cons a b ih =>
+    intro rest hno
+    have hb : '/' ∉ b := fun h => hno (List.mem_cons_of_mem _ h)
+    cases b with
+    | nil =>
+      simp only [List.cons_append, List.nil_append]
+      rw [blockEnd_cons_cons]
+      simp [blockEnd_cons_cons]
+    | cons y t =>
+      have hy : y ≠ '/' := fun h => hno (by simp [h])
+      simp only [List.cons_append]
+      rw [blockEnd_cons_cons]
+      have := ih rest hb
+      simp only [List.cons_append] at this
+      simp [hy, this]
+
+theorem takeWhile_length_le_stop {p : Char → Bool} : ∀ (a : List Char) (w : Char) (rest : List Char),
+    p w = false → ((a ++ w :: rest).takeWhile p).length ≤ a.length := by
+  intro a
+  induction a with
+  | nil => intro w rest hw; simp [List.takeWhile, hw]
+  | cons x a ih =>
+    intro w rest hw
+    simp only [List.cons_append, List.takeWhile]
+    split
+    · have := ih w rest hw; simp; omega
+    · simp
+
+/-- a `/* … */` comment (body without `/`) followed by a whitespace character -/
+theorem skips_blockComment (hK : K.WF) (body : List Char) (w : Char) (hb : '/' ∉ body) (hw : K.ws w = true) :
+    Skips K ('/' :: '*' :: (body ++ ['*', '/', w])) := by
+  intro rest
+  have h0 : K.ws '/' = false := (hK.nohead '/' (by simp)).2
+  have hend : blockEnd (body ++ '*' :: '/' :: w :: rest) = some (body.length + 2) := blockEnd_body body _ hb
+  have hwns : K.safe w = false := hK.ws_not_safe w hw
+  have htw : (('*' :: (body ++ '*' :: '/' :: w :: rest)).takeWhile K.safe).length ≤ body.length + 3 := by
+    have := takeWhile_length_le_stop (p := K.safe) ('*' :: (body ++ ['*', '/'])) w rest hwns
+    simpa using this
+  have hwin : blockCommentWins K ('*' :: (body ++ '*' :: '/' :: w :: rest)) = some (body.length + 3) := by
+    simp only [blockCommentWins, hend]
+    by_cases hn : K.nonIdHead '/' = true
+    · simp only [hn, if_true]
+      rw [if_pos (by omega)]
+      congr 1; omega
+    · simp only [hn, Bool.false_eq_true, if_false]
+      rw [if_pos (by omega)]
+      congr 1; omega
+  have hdrop : List.drop (body.length + 3) ('*' :: (body ++ '*' :: '/' :: w :: rest)) = w :: rest := by
+    have : body.length + 3 = ('*' :: (body ++ ['*', '/'])).length := by simp
+    rw [this]
+    have h2 : ('*' :: (body ++ '*' :: '/' :: w :: rest)) = ('*' :: (body ++ ['*', '/'])) ++ (w :: rest) := by simp
+    rw [h2, List.drop_left]
+  simp only [List.cons_append, List.append_assoc, List.nil_append, lex_cons]
+  simp only [scan, h0, isArrow, commentAt, hwin, Bool.false_eq_true, if_false, if_true]
+  simp [hdrop, lex_cons, scan, hw]
+
 end DaeVerif.C17
